@@ -407,7 +407,7 @@ class TaggedUnionConverter(UnionConverter):
         else:
             (t_r, c_r) = self.external
             try:
-                if len(val) != 2:
+                if len(val) != 2 or t_r not in val or c_r not in val:
                     raise ParseInterrupt()
                 tag, val = val[t_r], val[c_r]
             except KeyError:
@@ -439,7 +439,7 @@ class TaggedUnionConverter(UnionConverter):
         else:
             (t_r, c_r) = self.external
             try:
-                if len(val) != 2:
+                if len(val) != 2 or t_r not in val or c_r not in val:
                     raise KeyError()
                 tag, val = val[t_r], val[c_r]
             except KeyError:
